@@ -331,7 +331,9 @@ def default_symbol(rng, c):
         s.update(sym='ComplexVoltageSource' if isv else 'ComplexCurrentSource', args={k: a[k]})
     elif t.startswith('ac'):
         deg = rng.random() < 0.5
-        sin = rng.random() < 0.3
+        sin = rng.random() < 0.5
+        if 'phase_mode' in c:
+            sin, deg = c['phase_mode']            # the caller cycles through the four ways of entering a phase
         phi = a['phi'] + (math.pi / 2 if sin else 0.0)
         if sin and a['phi'] == 0.0:
             phi = math.pi / 2                   # V sin(wt + 90 deg): the converted phase is exactly 0
